@@ -67,6 +67,9 @@ def cases(draw):
     if tricky:
         # a legal block name that itself contains '_not_' (its shortcut is '_not_z_not_s0')
         names.insert(ns, 'z_not_s0')
+    if draw(st.integers(0, 3)) == 0:
+        # a legal block name that looks like the automatic name of a constant used in the same circuit
+        names.insert(ns, '<Const 1>')
 
     def ref(pool=None):
         r = draw(st.integers(0, 9))
@@ -85,7 +88,7 @@ def cases(draw):
         kind = draw(st.sampled_from(['noop', 'noop', 'func', 'and', 'not']))
         # blocks computing real values are fed by sources only: the wiring may be cyclic, and only
         # the constant-output probes are stable in a loop
-        srcnames = [n for n in names if n[0] in 'sz']
+        srcnames = [n for n in names if n[0] in 'sz<']
         pos = [ref(srcnames if kind == 'and' else None) for _ in range(draw(st.integers(0, 3)))]
         named = {}
         if kind == 'not':
@@ -226,7 +229,7 @@ def execute(case):
                 if name.startswith('s'):
                     objs[name] = edzed.Input(name, initdef=int(name[1:]) + 10)
                     continue
-                if name.startswith('z'):
+                if name.startswith(('z', '<')):
                     objs[name] = edzed.Input(name, initdef=77)
                     continue
                 d = case['cblocks'][int(name[1:])]
